@@ -43,6 +43,10 @@ def _patterns(cls):
     pats = [()]
     if cls in R.ATOM_CLASSES:
         pats += [(k,) for k in range(1, n)]
+        # two and three lone pairs on one centre (water-like, ClF3-like, XeF4-like): identical placeholders
+        pats += [c for c in itertools.combinations(range(1, n), 2)]
+        if n >= 5:
+            pats += [c for c in itertools.combinations(range(1, n), 3)][:: 2]
     else:
         pats += [(k,) for k in (0, 1, 4, 5)]
         pats += [c for c in itertools.combinations((0, 1, 4, 5), 2)]
@@ -193,8 +197,14 @@ def run_item(item):
             d2 = (cls, t2, p2)
             o2 = _mk(cls, t2, p2)
             try:
+                h_before = hash(o2)          # hash first: a memoised hash must not survive into the inverted descriptor
                 i1 = o2.invert()
                 i2 = i1.invert()
+                if p2 is not None and hash(i1) != hash(_mk(cls, t2, p2 if p2 == 0 else -p2)):
+                    V("invert-hash", d2, None, f"hash of {o2}.invert() (taken after hashing the original) differs from the hash of a "
+                                               f"freshly built mirror descriptor")
+                if hash(i2) != h_before:
+                    V("invert-hash", d2, None, f"hash of {o2}.invert().invert() differs from the hash of the original")
             except Exception as e:
                 V("invert-exception", d2, None, f"invert raised {e!r}")
                 continue
